@@ -896,6 +896,10 @@ class _Inconclusive(Exception):
     pass
 
 
+class _Clamped(Exception):
+    """The resolution is replaced by a bounded version of itself."""
+
+
 def _check_input_value_arith(run, mod, F, fn):
     """Number of latch reads and the final right shift as functions of the
     resolution R = 8q + r, for every residue r with q symbolic: the loop
@@ -1004,6 +1008,9 @@ def _check_input_value_arith(run, mod, F, fn):
                     unparse(n.target) == x and unparse(n.value) == "8"]
                 if len(decs) != 1:
                     raise _Inconclusive("loop does not step %s by 8" % x)
+                if x not in env:
+                    raise _Inconclusive("the loop variable %s has no value "
+                                        "linear in the resolution" % x)
                 x0 = env[x]
                 if x0.a != 8:
                     raise _Inconclusive("loop variable is not the resolution")
@@ -1041,6 +1048,25 @@ def _check_input_value_arith(run, mod, F, fn):
                         a_, b_
                     continue
                 if isinstance(tg, ast.Name):
+                    v_ = s_.value
+                    if tg.id == res_name and isinstance(v_, ast.Call) and \
+                            isinstance(v_.func, ast.Name) and \
+                            v_.func.id in ("min", "max") and \
+                            len(v_.args) == 2 and not v_.keywords:
+                        others = [a_ for a_ in v_.args if not (isinstance(
+                            a_, ast.Name) and a_.id == res_name)]
+                        if len(others) == 1 and isinstance(
+                                others[0], ast.Constant) and isinstance(
+                                    others[0].value, int):
+                            raise _Clamped(
+                                "the resolution is replaced by `%s` before "
+                                "the bytes are counted: for a resolution %s "
+                                "%d the number of latch reads and the final "
+                                "shift are those of %d bits, not of the "
+                                "instance's resolution" % (
+                                    unparse(v_), "above" if v_.func.id ==
+                                    "min" else "below", others[0].value,
+                                    others[0].value))
                     try:
                         env[tg.id] = ev(s_.value, env)
                     except _Inconclusive:
@@ -1131,6 +1157,9 @@ def _check_input_value_arith(run, mod, F, fn):
                                r_, st["reads"], want_reads, st["shift"],
                                want_shift, "" if st["msb_first"] else
                                ", bytes not accumulated MSB first"))
+    except _Clamped as e:
+        ok = False
+        why.append(str(e))
     except _Inconclusive as e:
         raise AnalysisError("query_input_value: the byte count / shift "
                             "arithmetic is not in a form with a closed "
